@@ -167,7 +167,11 @@ func (t *Collection) ExistAny(key interface{}) bool {
 // Exist returns true if the key exists in the collection
 func (t *Collection) Exist(key []byte) bool {
 	val, _ := t.GetItem(key, false)
-	return val != nil
+	if val == nil {
+		return false
+	}
+	t.store.ItemDecRef(t, val)
+	return true
 }
 
 // SetItem in a collection
